@@ -235,7 +235,7 @@ var (
 	c04JSKey []string
 )
 
-func c04BundleJS(reg *template.Registry, key string, msgs *memBundle) (string, error) {
+func c04BundleJS(reg *template.Registry, key string, msgs *jsMemBundle) (string, error) {
 	c04Mu.Lock()
 	defer c04Mu.Unlock()
 	if js, ok := c04JS[key]; ok {
@@ -268,7 +268,7 @@ func c04BundleJS(reg *template.Registry, key string, msgs *memBundle) (string, e
 	return b.String(), nil
 }
 
-func c04Bundle(reg *template.Registry, kind string) *memBundle {
+func c04Bundle(reg *template.Registry, kind string) *jsMemBundle {
 	switch kind {
 	case "0":
 		return translationsDet(reg, 0)
